@@ -43,15 +43,30 @@ def run_demo(tree, seed, meta):
     shutil.rmtree(ddir, ignore_errors=True)
     return rc, out
 
+def run_checks(result, checks, tier, mutated):
+    result["checks"] = {}
+    for c in checks:
+        t0 = time.time()
+        rc, out = sh(f"./verif.sh {c} {tier}", cwd=os.environ.get("VERIF_DIR", "/verif"), env=dict(ENV, VERIF_REPO=mutated, VERIF_SEED=os.environ.get("VERIF_SEED", "1")), timeout=7200)
+        lines = [l for l in out.splitlines() if l.startswith("VIOLATION") or l.startswith("  [") or l.startswith("HARNESS-ERROR")]
+        result["checks"][c] = {"exit": rc, "seconds": round(time.time() - t0, 1), "lines": lines[:6]}
+    result["caught_by"] = [c for c, r in result["checks"].items() if r["exit"] == 1]
+    return result
+
 def main():
     seed = os.path.abspath(sys.argv[1])
     args = sys.argv[2:]
     tier = "quick"
     checks = None
     keep = "--keep" in args
+    reuse = None
     for i, a in enumerate(args):
         if a == "--checks":
             checks = args[i + 1].split(",")
+        if a == "--reuse":
+            # an earlier evaluation of the SAME patch against the SAME /repo commit: its confirmation (patch applies, suite
+            # passes, demonstration fails with / passes without the change) is taken over instead of being repeated
+            reuse = json.load(open(args[i + 1]))
         if a == "--tier":
             tier = args[i + 1]
     meta = json.load(open(os.path.join(seed, "meta.json")))
@@ -68,6 +83,14 @@ def main():
             result["confirmed"] = False
             result["why"] = "patch does not apply: " + out[-400:]
             return result
+        head = sh("git rev-parse HEAD", cwd="/repo")[1].strip()
+        psha = hashlib.sha1(open(os.path.join(seed, "patch.diff"), "rb").read()).hexdigest()
+        result["repo_commit"], result["patch_sha1"] = head, psha
+        if reuse and reuse.get("confirmed") and reuse.get("patch_sha1", psha) == psha and reuse.get("repo_commit", head) == head:
+            for k in ("suite_passes_with_change", "demo_fails_with_change", "demo_passes_without_change", "confirmed"):
+                result[k] = reuse.get(k)
+            result["confirmation_from"] = "the first evaluation of this change (same patch, same /repo commit)"
+            return run_checks(result, checks, tier, mutated)
         # the library's own suite binds fixed ports (127.0.0.1:12345 ...): serialise it and retry on a busy port
         for attempt in range(8):
             rc2, out2 = sh("flock /tmp/uhppote-suite.lock bash -c 'go build ./... && go vet ./... && go test -count=1 ./... 2>&1'", cwd=mutated)
@@ -88,14 +111,7 @@ def main():
         if not result["confirmed"]:
             result["why"] = f"demo with change rc={rcm}: {outm[-300:]} | demo clean rc={rcc}: {outc[-300:]}"
             return result
-        result["checks"] = {}
-        for c in checks:
-            t0 = time.time()
-            rc, out = sh(f"./verif.sh {c} {tier}", cwd=os.environ.get("VERIF_DIR", "/verif"), env=dict(ENV, VERIF_REPO=mutated, VERIF_SEED=os.environ.get("VERIF_SEED", "1")), timeout=7200)
-            lines = [l for l in out.splitlines() if l.startswith("VIOLATION") or l.startswith("  [") or l.startswith("HARNESS-ERROR")]
-            result["checks"][c] = {"exit": rc, "seconds": round(time.time() - t0, 1), "lines": lines[:6]}
-        result["caught_by"] = [c for c, r in result["checks"].items() if r["exit"] == 1]
-        return result
+        return run_checks(result, checks, tier, mutated)
     finally:
         if not keep:
             for t in (mutated, clean):
